@@ -19,9 +19,9 @@ theorem colLen_eq_byteLen (l : List Ch) (h : ∀ c ∈ l, c.width = c.bytes) : c
 
 theorem slice_offsets (ls : List Line) (k₁ k₂ : Nat) (pre₁ pre₂ : List Ch)
     (h₁ : ∀ c ∈ pre₁, c.width = c.bytes) (h₂ : ∀ c ∈ pre₂, c.width = c.bytes) :
-    sourceSlice ls { start := lexPos k₁ pre₁, stop := lexPos k₂ pre₂ }
+    sourceSliceCol ls { start := lexPos k₁ pre₁, stop := lexPos k₂ pre₂ }
       = (truePos ls k₁ pre₁, truePos ls k₂ pre₂) := by
-  simp [sourceSlice, byteOf, lexPos, truePos, colLen_eq_byteLen _ h₁, colLen_eq_byteLen _ h₂]
+  simp [sourceSliceCol, byteOfCol, lexPos, truePos, colLen_eq_byteLen _ h₁, colLen_eq_byteLen _ h₂]
 
 theorem byteLen_append (a b : List Ch) : byteLen (a ++ b) = byteLen a + byteLen b := by
   induction a with
@@ -81,11 +81,11 @@ theorem flatten_split (ls : List Line) (k : Nat) (l : Line) (h : ls[k]? = some l
       · obtain ⟨l', hl', hcl⟩ := hm c hc
         exact ⟨l', by simp [hl'], hcl⟩
 
-theorem slice_text (ls : List Line) (k : Nat) (pre tok post : List Ch)
+/-- the text between two true offsets on line `k` -/
+theorem slice_true (ls : List Line) (k : Nat) (pre tok post : List Ch)
     (hline : ls[k]? = some (pre ++ tok ++ post))
-    (hbytes : ∀ l ∈ ls, ∀ c ∈ l, 1 ≤ c.bytes)
-    (hpre : ∀ c ∈ pre, c.width = c.bytes) (htok : ∀ c ∈ tok, c.width = c.bytes) :
-    sourceSliceText ls { start := lexPos k pre, stop := lexPos k (pre ++ tok) } = some tok := by
+    (hbytes : ∀ l ∈ ls, ∀ c ∈ l, 1 ≤ c.bytes) :
+    sliceText ls.flatten (truePos ls k pre) (truePos ls k (pre ++ tok)) = some tok := by
   obtain ⟨A, B, hf, hb, hm⟩ := flatten_split ls k _ hline
   have hmem : (pre ++ tok ++ post) ∈ ls := List.mem_of_getElem? hline
   have hA : ∀ c ∈ A, 1 ≤ c.bytes := by
@@ -99,20 +99,61 @@ theorem slice_text (ls : List Line) (k : Nat) (pre tok post : List Ch)
     rcases List.mem_append.mp hc with h | h
     · exact hA c h
     · exact hP c h
+  have hs : truePos ls k pre = byteLen (A ++ pre) := by simp [truePos, byteLen_append, hb]
+  have he : truePos ls k (pre ++ tok) = byteLen (A ++ pre) + byteLen tok := by
+    simp [truePos, byteLen_append, hb]; omega
+  have hflat : ls.flatten = (A ++ pre) ++ (tok ++ (post ++ B)) := by simp [hf]
+  rw [hs, he, hflat]
+  exact sliceText_mid (A ++ pre) tok (post ++ B) hAP hT
+
+/-- the fallback arithmetic is right when columns are byte counts -/
+theorem slice_text_col (ls : List Line) (k : Nat) (pre tok post : List Ch)
+    (hline : ls[k]? = some (pre ++ tok ++ post))
+    (hbytes : ∀ l ∈ ls, ∀ c ∈ l, 1 ≤ c.bytes)
+    (hpre : ∀ c ∈ pre, c.width = c.bytes) (htok : ∀ c ∈ tok, c.width = c.bytes) :
+    sourceSliceTextCol ls { start := lexPos k pre, stop := lexPos k (pre ++ tok) } = some tok := by
   have hpt : ∀ c ∈ pre ++ tok, c.width = c.bytes := by
     intro c hc
     rcases List.mem_append.mp hc with h | h
     · exact hpre c h
     · exact htok c h
-  have hoff := slice_offsets ls k k pre (pre ++ tok) hpre hpt
-  have hs : truePos ls k pre = byteLen (A ++ pre) := by simp [truePos, byteLen_append, hb]
-  have he : truePos ls k (pre ++ tok) = byteLen (A ++ pre) + byteLen tok := by
-    simp [truePos, byteLen_append, hb]; omega
-  have hflat : ls.flatten = (A ++ pre) ++ (tok ++ (post ++ B)) := by simp [hf]
-  unfold sourceSliceText
-  rw [hoff, hs, he, hflat]
-  exact sliceText_mid (A ++ pre) tok (post ++ B) hAP hT
+  unfold sourceSliceTextCol
+  rw [slice_offsets ls k k pre (pre ++ tok) hpre hpt]
+  exact slice_true ls k pre tok post hline hbytes
 
+theorem lookup_of_mem (tbl : Table) (p : Pos) (b : Nat) (hm : (p, b) ∈ tbl)
+    (hf : ∀ b', (p, b') ∈ tbl → b' = b) : lookup tbl p = some b := by
+  induction tbl with
+  | nil => simp at hm
+  | cons e rest ih =>
+    obtain ⟨q, c⟩ := e
+    by_cases hq : q = p
+    · subst hq
+      have : c = b := hf c (by simp)
+      simp [lookup, this]
+    · have hm' : (p, b) ∈ rest := by
+        rcases List.mem_cons.mp hm with h | h
+        · exact absurd (congrArg Prod.fst h).symm hq
+        · exact h
+      simp only [lookup, hq, if_false]
+      exact ih hm' (fun b' hb' => hf b' (by simp [hb']))
+
+/-- with the token-boundary table: no assumption on widths -/
+theorem slice_text_tbl (ls : List Line) (tbl : Table) (k : Nat) (pre tok post : List Ch) (sp ep : Pos)
+    (hline : ls[k]? = some (pre ++ tok ++ post))
+    (hbytes : ∀ l ∈ ls, ∀ c ∈ l, 1 ≤ c.bytes)
+    (hs : (sp, truePos ls k pre) ∈ tbl) (he : (ep, truePos ls k (pre ++ tok)) ∈ tbl)
+    (hfs : ∀ b, (sp, b) ∈ tbl → b = truePos ls k pre)
+    (hfe : ∀ b, (ep, b) ∈ tbl → b = truePos ls k (pre ++ tok)) :
+    sourceSliceText ls tbl { start := sp, stop := ep } = some tok := by
+  unfold sourceSliceText sourceSlice byteOf
+  simp only [lookup_of_mem tbl sp _ hs hfs, lookup_of_mem tbl ep _ he hfe]
+  exact slice_true ls k pre tok post hline hbytes
+
+/-- off the table, `byte_offset` is the fallback -/
+theorem byteOf_fallback (ls : List Line) (tbl : Table) (p : Pos) (h : lookup tbl p = none) :
+    byteOf ls tbl p = byteOfCol ls p := by
+  simp [byteOf, h]
 
 /-! ## format options: decimal digits -/
 
